@@ -772,6 +772,16 @@ def has_side_effect(node: ast.AST, safe_callable_whitelist: Collection[str] = fr
     return True
 
 
+def split_lines(source: str) -> Sequence[str]:
+    """Split source code in lines, line ends included, where the python tokenizer does.
+
+    That is at \\n, \\r\\n and \\r, which is what ast line numbers refer to. str.splitlines() also
+    splits at form feeds and unicode line separators, which may be inside string literals, or
+    between a statement and the comment that follows it.
+    """
+    return re.findall(r"[^\r\n]*(?:\r\n|\r|\n)|[^\r\n]+\Z", source)
+
+
 @functools.lru_cache(maxsize=100)
 def _get_line_start_charnos(source: str) -> Sequence[int]:
     # Lines are split like the python tokenizer does (\n, \r\n and \r), since that is what ast line
@@ -924,7 +934,7 @@ def has_ignore_comment(source: str, rng: Range) -> bool:
     pattern = re.compile(r"#\s*pyrefact\s*:\s*(skip_file|ignore)")
 
     character_count = 0
-    for line in source.splitlines(keepends=True):
+    for line in split_lines(source):
         line_start = character_count
         line_end = character_count = line_start + len(line)
 
